@@ -138,6 +138,7 @@ func ParseFlags(params []string, args *Arguments) (*FlagsT, []string, error) {
 	)
 
 	for i = range params {
+		hops := 0
 	scanFlags:
 		switch {
 		case ignoreFlags:
@@ -148,6 +149,10 @@ func ParseFlags(params []string, args *Arguments) (*FlagsT, []string, error) {
 			case args.AllowAdditional && params[i] == "--":
 				ignoreFlags = true
 			case strings.HasPrefix(args.Flags[params[i]], "-"):
+				hops++
+				if hops > len(args.Flags) {
+					return nil, nil, fmt.Errorf("%s: flag aliases form a loop: `%s`", invalidParameters, params[i])
+				}
 				params[i] = args.Flags[params[i]]
 				goto scanFlags
 			case args.Flags[params[i]] == types.Boolean:
